@@ -98,6 +98,21 @@ def run(ctx):
 
     ctx.run_shards(sh, timeout=7200, on_compile_fail=attribute)
 
+    # members outside the zoo: one translation unit per member
+    extra_src = os.path.join(core.HARNESS, "c13_extra.cpp")
+    extra = [(0, "declared-ctor:clamp-default-box", False), (1, "declared-ctor:backup-default-box", False),
+             (2, "cuda-shim:construct", True), (3, "cuda-shim:copy", True), (4, "cuda-shim:move", True), (5, "cuda-shim:copy-assign", True),
+             (6, "cuda-shim:move-assign", True), (7, "cuda-shim:dump+load", True)]
+    xs = [dict(name="extra/%s/asan-dbg" % key, src=extra_src, flavour="asan-dbg", defines=["PART=%d" % k], cuda_shim=shim) for k, key, shim in extra]
+
+    def extra_fail(shard, build):
+        key = shard["name"].split("/")[1]
+        ctx.violation("compile:%s" % key, "member does not compile: %s" % core.first_error(build.log), shard=shard["name"], flavour=build.flavour,
+                      extra={"compile_log": build.log[-4000:]})
+        return True
+
+    ctx.run_shards(xs, timeout=600, on_compile_fail=extra_fail)
+
     # ill-kinded catalogue: the compiler's verdict is the only observable
     jobs, meta = [], []
     for name, bad, frag, good in CATALOGUE:
